@@ -113,7 +113,7 @@ def _fields_and_init(
                 output_fields[elt.name] = elt
             continue
         elif callable(elt):
-            types = get_type_hints(elt)
+            types = get_type_hints(elt, include_extras=True)
             first_param = next(iter(inspect.signature(elt).parameters))
             substitution, _ = subtyping_substitution(types.get(first_param, cls), cls)
             ret = substitute_type_vars(types.get("return", Any), substitution)
